@@ -35,6 +35,11 @@ pub fn for_property(p: &str) -> Vec<Suite> {
         "C05" => c05::suites(),
         "C07" => c07::suites(),
         "C31" => c31::suites(),
+pub mod c17;
+pub mod c32;
+
+        "C17" => c17::suites(),
+        "C32" => c32::suites(),
         _ => vec![],
     }
 }
